@@ -14,6 +14,13 @@ LineColFrom(chars, i, p, line, col) ==       \* i: next character (1-based), sca
   ELSE LineColFrom(chars, i + 1, p, line, col + 1)
 LineCol(chars, p) == LineColFrom(chars, 1, p, 0, 0)
 
+\* position of an END offset.  At the very end of a source that ends in a line break there is no next
+\* line: the position may be given on the last line, after its break (column = length of that line).
+EndOk(chars, p, loc) ==
+  \/ loc = LineCol(chars, p)
+  \/ /\ p = Len(chars) /\ p > 0 /\ chars[p][2]
+     /\ LET before == LineCol(chars, p - 1) IN loc = << before[1], before[2] + 1 >>
+
 SpanInside(chars, sp) == 0 <= sp[1] /\ sp[1] <= sp[2] /\ sp[2] <= Len(chars)
 
 \* the message quotes the line the span starts on: some gutter line of the display carries that
@@ -31,7 +38,7 @@ MsgFault(m) ==
   ELSE IF ~SpanInside(m.chars, m.span) THEN "span-outside-source"
   ELSE IF ~m.has_location THEN "no-location"
   ELSE IF << m.location[1][1], m.location[1][2] >> # LineCol(m.chars, m.span[1]) THEN "location-start"
-  ELSE IF << m.location[2][1], m.location[2][2] >> # LineCol(m.chars, m.span[2]) THEN "location-end"
+  ELSE IF ~EndOk(m.chars, m.span[2], << m.location[2][1], m.location[2][2] >>) THEN "location-end"
   ELSE IF ~m.has_display \/ ~QuotesLine(m, LineCol(m.chars, m.span[1])[1]) THEN "display-line"
   ELSE "ok"
 
